@@ -615,6 +615,21 @@ fn extra_api(rep: &mut Report) {
             }
         }
     }
+    // every algorithm identifier a caller can WRITE (the public variants with every u16, not only what From<u16> produces)
+    // handed to the long-term key constructor, to Algorithm / PasswordAlgorithm and their accessors
+    {
+        let mut ids: Vec<AlgorithmId> = vec![AlgorithmId::Reserved, AlgorithmId::MD5, AlgorithmId::SHA256];
+        ids.extend((0..=0xFFFFu32).map(|n| AlgorithmId::Unassigned(n as u16)));
+        for id in ids {
+            let inp = || json!({"api": "AlgorithmId written literally", "id": format!("{:?}", id)});
+            np("HMACKey::new_long_term", "algorithm-id-literal", &inp, rep, || HMACKey::new_long_term("user", "realm", "pass", Algorithm::from(id)).is_ok());
+            np("Algorithm/PasswordAlgorithm", "algorithm-id-literal", &inp, rep, || {
+                let a = Algorithm::new(id, Some(&[1u8, 2][..]));
+                let p = PasswordAlgorithm::new(a.clone());
+                (u16::from(a.algorithm()), p.algorithm() == id, p.parameters().map(|x| x.len()), format!("{:?} {:?}", a, p), a == Algorithm::from(id))
+            });
+        }
+    }
     np("error-code-attribute", "any", &none, rep, || {
         let e = stun_rs::ErrorCode::new(699, "x").unwrap();
         let a = stun_rs::attributes::stun::ErrorCode::from(e.clone());
